@@ -769,6 +769,17 @@ func (w *World) Exec(op Op) {
 
 // Run is the run loop shared by the Engine S header properties.
 func Run(c *core.Ctx, o Opts) *World {
+	if n, ok := backlogConfig(c); ok {
+		backlogScenario(c, n)
+		return nil
+	}
+	if c.Script == nil && o.Backlog > 0 && c.T.Chance(1, o.Backlog) {
+		// C07: a subscriber with a backlog larger than its channel (own small world, see backlog.go)
+		n := 10001 + c.T.Draw(8)
+		c.Record(Op{K: "config", D: 3, A: n})
+		backlogScenario(c, n)
+		return nil
+	}
 	w := Start(c, o)
 	if c.Script != nil {
 		for _, raw := range c.Script[1:] {
